@@ -264,3 +264,8 @@ OUTSIDE["C13"] = [
     "allocation behaviour on untrusted counts (read_array pre-allocates count * size): C05 territory",
 ]
 H = _H13_orig
+
+# ---- added after the seeded-change trials: record-level version conversion
+H("C13", "m2", _RC, "quick", "C13.f converting a bone to another version keeps identity, parent, flags, pivot and (for targets TBC+) the name CRC",
+  ["c13f_bone_convert_keeps_common_content"], ["chunks::bone::M2Bone::convert"],
+  "bone scalar fields and name CRC symbolic, target version in Vanilla..Legion symbolic", "one bone (tracks empty)", stubs=["std::fmt::format -> String::new()"])
